@@ -44,7 +44,8 @@ CONFIG = {
 
 
 def _read(ch, addr):
-    return ch[addr if len(addr) > 1 else addr[0]]
+    v = ch[addr if len(addr) > 1 else addr[0]]
+    return getattr(v, "value", v) if type(v).__name__ == "Mask" else v
 
 
 def _classify(w, terms):
